@@ -26,6 +26,9 @@ from ..extractors import e8_handover
 OUTPUT = str(REPO / "eliot" / "_output.py")
 KEY_OLD_LIST = {"schedule": "logger-holds-old-destination-list-across-first-add"}
 KEY_EMPTY_LIST = {"schedule": "logger-iterates-new-empty-destination-list-before-extend"}
+KEY_OVERTAKE = {"schedule": "message-logged-during-first-add-overtakes-buffered-messages"}
+# also check "in order and ahead of later messages" under interleavings (set False to restrict the oracle to loss / duplication)
+CHECK_ORDER = True
 LEAN_TARGETS = ["Eliot.Conc.Handover", "Eliot.Generated.Handover", "Eliot.Proofs.Handover"]
 THEOREMS = ["Eliot.Conc.Handover.handover_race_witness", "Eliot.Conc.Handover.handover_no_loss_false",
             "Eliot.Conc.Handover.handover_race_witness_empty_list", "Eliot.Conc.Handover.handover_race_witness_prebuffered"]
@@ -87,6 +90,12 @@ def oracle(case, res, obs):
         pre = [k for k in g if k in case["pre"]]
         if pre != [k for k in case["pre"] if k in pre]:
             bad.append("buffered messages re-delivered out of order to destination %d: %s" % (d, pre))
+        if CHECK_ORDER and not bad:
+            # "... in order and ahead of later messages": everything buffered before the threads started
+            # was logged before every message of the logging threads
+            firstnew = next((i for i, k in enumerate(g) if k in logged), None)
+            if firstnew is not None and any(k in case["pre"] for k in g[firstnew:]):
+                bad.append("destination %d received %s: a message logged during the first add overtook older buffered messages" % (d, g))
     return bad
 
 
@@ -142,6 +151,14 @@ def model_case(sk, case, res):
         elif s.tid == n:
             if s.func == "add" and (s.line in add_lines or s.line in (L.get("resend_for"), L.get("resend_send"))):
                 out.append("a")
+            elif s.func == "send" and s.line == L.get("send_for"):
+                out.append("a")
+            elif s.func == "send" and s.line == L.get("send_call"):
+                j = nxt.get(i)
+                if j is None or res.trace[j].func != "__call__":
+                    out.append("a")
+            elif s.func == "__call__" and s.line == L.get("buffer_append"):
+                out.append("a")
     return dict(pre=case["pre"], prog=case["loggers"], dests=list(range(case["dests"])), sched=out)
 
 
@@ -183,7 +200,7 @@ def run_handover(ctx, seconds=None):
                                                  "handover:preemptions:%d" % min(res.preemptions, 4)])
         bad = oracle(case, res, obs)
         if bad:
-            key = classify(sk, case, res)
+            key = KEY_OVERTAKE if "overtook" in bad[0] else classify(sk, case, res)
             ctx.count("handover:lost:" + (key["schedule"] if key else "unclassified"))
             k = json.dumps(key)
             if k not in seen_keys or key is None:
@@ -250,5 +267,5 @@ def replay_handover(ctx, obj):
     print("received     :", obs["got"], " errors:", obs["errors"])
     bad = oracle(case["config"], res, obs)
     if bad:
-        ctx.violation(bad[0], dict(case, observed=obs, also=bad[1:3]), key=classify(sk, case["config"], res))
+        ctx.violation(bad[0], dict(case, observed=obs, also=bad[1:3]), key=KEY_OVERTAKE if "overtook" in bad[0] else classify(sk, case["config"], res))
     return True
